@@ -66,6 +66,7 @@ type vHybSys struct {
 }
 
 func (s *vHybSys) Reset() {
+	vResetGlobals()
 	var vi VectorIndex
 	var ti TextIndex
 	var mi MetadataIndex
@@ -548,6 +549,7 @@ var vReaddTexts = []string{"alpha", "beta", "gamma alpha"}
 var vReaddMeta = []map[string]interface{}{{"s": "x", "n": 1}, {"s": "y", "n": 2}, {"s": "z", "b": true}}
 
 func (s *vReaddSys) Reset() {
+	vResetGlobals()
 	vFixLevels()
 	s.live = map[uint32]int{}
 	s.readd = map[uint32]bool{}
